@@ -78,4 +78,15 @@ def run(tier, seed, repo, focus=None):
                     res.violation("sequential test mismatch: " + msg, REPLAY % dict(verif=VERIF, name=name, params=params, xs=xs), known)
     res.sample({"check": "CUSUM vs sequential test", "params": grid["CUSUM"][0], "stream": "160 observations, 5 levels"})
     monitored_histories(res, "C04", ["C04"], tier, seed, known, names=("PageHinkley", "CUSUM"))
+    # the decisions are about the observations that were SUPPLIED: a caller that re-uses / overwrites its buffers after each
+    # call must get the same outputs as one that passes private copies (the aliasing scenarios of C15, run here for CUSUM / PageHinkley)
+    from bounded import drivers as _drv
+    _scns = []
+    for _name in ['CUSUM', 'PageHinkley']:
+        _d = C.DETECTORS[_name]
+        for _v in range(len(_d["variants"]) if not quick else 1):
+            for _mode in ("c", "view", "df"):
+                _scns.append({"det": _name, "variant": _v, "seed": seed, "n": 70, "mode": _mode})
+    _drv.run_scenarios(res, "no_alias", _scns, known)
+    _drv.run_scenarios(res, "no_alias_reref", [dict(x, n=9, reref=[3, 6]) for x in _scns], known)
     return res.finish()
